@@ -20,7 +20,7 @@ NA = {
 }
 
 TEXT = {
- "C01": ("Bounded model checking of the compiled real code. (a) the legality filter try_as_legal_move is decided on every legal position with <= 2 (thorough: 3) opposing men per kind and every candidate move, against an independent rule reference; (b) the candidate generator is decided sound, duplicate-free and complete on families of kings + <= 3 men (quick: castling families with king and rooks at home, pawn families with concrete kings; thorough: all squares symbolic) with symbolic castling rights and en-passant target; a glue lemma (no bound) shows every legal move is a candidate. The six-line filter loop and perft are argued from reading, not decided.",
+ "C01": ("Bounded model checking of the compiled real code. (a) the legality filter try_as_legal_move is decided on every legal position with <= 2 (thorough: 3) opposing men per kind and every candidate move, against an independent rule reference; (b) the candidate list is decided to contain only moves that obey the movement rules with the right attributes, none twice, and every legal move, on families of kings + <= 3 men (quick: castling families with king and rooks at home, pawn families with concrete kings; thorough: all squares symbolic) with symbolic castling rights and en-passant target; a glue lemma (no bound) shows every legal move is a candidate. The six-line filter loop and perft are argued from reading, not decided.",
          "DESIGN.md §4.1", "Assumes C09 (lookups = geometry; a cached failing C09 verdict for the tree makes this check inconclusive, the thorough tier runs C09 first). Reference rules in harness/common/rules.rs are validated natively against the real generator on perft walks at setup. Vec::push replaced by a non-reallocating equivalent that asserts capacity. Memory-safety (pointer) checks off for the generator harnesses while /repo has no `unsafe`.",
          "SAT-based bounded model checking (Kani/CBMC) of try_as_legal_move and compute_psuedo_legal_moves_into over symbolic positions, differential against an independent rule reference"),
  "C02": ("Bounded model checking with no bound on the position: twelve free bitboards, symbolic side, rights, en-passant target, clocks (< 2^32) and move; every field of State::by_performing_move's result is compared with an independent make-move reference, and the legal-position invariant is shown preserved by every legal move (induction step for sequences). MoveQuery::test is decided for every coordinate triple, and the resolver of State::by_performing_moves (exactly one match applies that move, none / several are rejected, input unchanged) on every adversarial candidate list of 0, 1 or 2 moves.",
